@@ -1,11 +1,24 @@
 #!/bin/sh
-# Build every Lean library (models, generated tables, proofs) and every model driver, offline.
-set -e
+# Build the Lean models, generated tables, proofs and model drivers, offline. Robust against one broken module:
+# everything is built per target, a failing target is reported and left to its check to flag.
 HERE="$(cd "$(dirname "$0")" && pwd)"
 cd "$HERE/lean"
-EXES=$(grep -A1 '^\[\[lean_exe\]\]' lakefile.toml | sed -n 's/^name = "\(.*\)"/\1/p')
+export PYTHONPATH="$HERE/harness:${VERIF_REPO:-/repo}" PYTHONDONTWRITEBYTECODE=1
 # regenerate the RxGen tables from the current /repo before building
-PYTHONPATH="$HERE/harness:${VERIF_REPO:-/repo}" /venv/bin/python "$HERE/harness/regen_all.py" || true
-lake build RxModel RxGen RxProofs Driver $EXES
-for e in $EXES; do test -x .lake/build/bin/$e; done
+/venv/bin/python "$HERE/harness/regen_all.py" || true
+EXES=$(grep -A1 '^\[\[lean_exe\]\]' lakefile.toml | sed -n 's/^name = "\(.*\)"/\1/p')
+FAIL=""
+lake build RxModel RxGen RxProofs Driver $EXES > /tmp/rxverif_setup.log 2>&1 || {
+  echo "bulk build failed; building per target"; tail -5 /tmp/rxverif_setup.log
+  TARGETS=$(/venv/bin/python -c "
+import json,importlib,sys
+sys.path.insert(0,'$HERE/harness')
+t=[]
+for p in json.load(open('$HERE/harness/claimed.json')):
+    m=importlib.import_module('props.'+p)
+    t+=list(getattr(m,'LEAN_TARGETS',[]))+([m.DRIVER] if getattr(m,'DRIVER',None) else [])
+print(' '.join(dict.fromkeys(t)))")
+  for t in $TARGETS; do lake build $t > /tmp/rxverif_setup_t.log 2>&1 || { FAIL="$FAIL $t"; tail -3 /tmp/rxverif_setup_t.log; }; done
+}
+[ -n "$FAIL" ] && echo "setup: targets that failed to build:$FAIL"
 echo setup-ok
